@@ -37,9 +37,10 @@ def bool_structure(seed, tier):
     lv = formulas(2)
     fs = lv[0] + lv[1] + lv[2]
     if tier == 'quick':
-        d2 = list(lv[2])
+        nots = [f for f in lv[2] if f.startswith('(not ')]
+        d2 = [f for f in lv[2] if not f.startswith('(not ')]
         rnd.shuffle(d2)
-        fs = lv[0] + lv[1] + d2[:150]
+        fs = lv[0] + lv[1] + nots + d2[:110]
     items = []
     per = 6
     for i in range(0, len(fs), per):
